@@ -208,7 +208,7 @@ func (sv *Solver) solveH(name, script string, modelTerms []string, hints [][]str
 			}
 		}
 	}
-	if (res.Answer == "unsat" && !wantSat || res.Answer == "sat" && wantSat) && (os.Getenv("GOVC_KEEP") == "" || res.Seconds < 1.5) {
+	if (res.Answer == "unsat" && !wantSat || res.Answer == "sat" && wantSat) && (os.Getenv("GOVC_KEEP") == "" || res.Seconds < 1.5) && os.Getenv("GOVC_KEEP") != "all" {
 		os.Remove(file)
 	}
 	sv.mu.Lock()
